@@ -1,6 +1,6 @@
 (* C01 — completeness: over every well-formed history (any lag) the honest proofs are accepted. *)
 From V Require Import Proofs.History Proofs.Gen Proofs.Binding Proofs.Linear Proofs.Sound
-  Proofs.Session Merkle.Sound.
+  Proofs.Session Merkle.Sound Merkle.HExact.
 From Coq Require Import ZifyN ZifyNat ZifyBool.
 Open Scope N_scope.
 
@@ -91,7 +91,7 @@ Lemma tree_last_inclusion_complete hs b :
 Proof.
   intros Hb Hl. pose proof (tree_inclusion_complete hs b b Hb ltac:(lia) Hl) as V.
   unfold verify_inclusion in V. unfold verify_last_inclusion.
-  destruct (N.eqb_spec b 0); [lia|].
+  destruct (N.eqb_spec b 0); [lia|]. cbn [orb].
   destruct (_ || _); [discriminate|]. destruct (negb _); [discriminate|].
   rewrite eval_inclusion_same in V. exact V.
 Qed.
@@ -231,53 +231,21 @@ Proof.
 Qed.
 
 (* ---------- entry inclusion (htree.VerifyInclusion) ---------- *)
-Lemma htree_eval_N terms : forall (x y : N) (c : bytes),
-  htree_eval H terms (Z.of_N x) (Z.of_N y) c =
-  (eval_inclusion H terms x y c, Z.of_N (N.shiftr x (lenN terms)), Z.of_N (N.shiftr y (lenN terms))).
-Proof.
-  induction terms as [|h r IH]; intros x y c.
-  - cbn [htree_eval eval_inclusion]. unfold lenN. simpl length. rewrite !N.shiftr_0_r. reflexivity.
-  - cbn [htree_eval eval_inclusion].
-    assert (E1 : (Z.rem (Z.of_N x) 2 =? 0)%Z = N.even x).
-    { rewrite Z.rem_mod_nonneg by lia.
-      destruct (N.even x) eqn:Ev.
-      - apply N.even_spec in Ev as [k ->]. apply Z.eqb_eq. lia.
-      - apply Z.eqb_neq. intros E. assert (N.odd x = true) as Od by (rewrite <- N.negb_even, Ev; reflexivity).
-        apply N.odd_spec in Od as [k ->]. lia. }
-    assert (E2 : (Z.of_N x =? Z.of_N y)%Z = (x =? y)).
-    { destruct (N.eqb_spec x y); [apply Z.eqb_eq | apply Z.eqb_neq]; lia. }
-    assert (Q : forall a : N, Z.quot (Z.of_N a) 2 = Z.of_N (N.div2 a)).
-    { intros a. rewrite Z.quot_div_nonneg by lia. rewrite N.div2_div. lia. }
-    rewrite E1, E2, !Q, IH.
-    assert (S : forall a, N.shiftr (N.div2 a) (lenN r) = N.shiftr a (lenN (h :: r))).
-    { intros a. rewrite N.div2_spec, N.shiftr_shiftr. f_equal. unfold lenN. simpl length. lia. }
-    rewrite !S. reflexivity.
-Qed.
-
 (* COMPLETENESS of the entry inclusion proof: for every transaction (entries es, Eh = tree over their
-   digests) and every entry index the honest proof (Tx.Proof) is accepted by store.VerifyInclusion *)
+   digests) and every entry index the honest proof (Tx.Proof) is accepted by store.VerifyInclusion
+   (coq/Merkle/HExact.v htree_inclusion_complete) *)
 Theorem entry_inclusion_complete (v : N) (es : list entry) (idx : N) (e : entry) :
   nth_error es (N.to_nat idx) = Some e ->
   verify_entry_inclusion H (gen_entry_proof H v es idx) (entry_digest H v e) (eh_of H v es) = true.
 Proof.
-  intros He. unfold gen_entry_proof, verify_entry_inclusion, htree_verify_inclusion, eh_of.
+  intros He. unfold gen_entry_proof, verify_entry_inclusion, eh_of.
   set (ds := map (entry_digest H v) es).
-  assert (Hlen : (N.to_nat idx < length es)%nat) by (apply nth_error_Some; congruence).
-  assert (Hd : nth_error ds (N.to_nat (idx + 1 - 1)) = Some (entry_digest H v e)).
-  { replace (idx + 1 - 1) with idx by lia. unfold ds. apply map_nth_error. exact He. }
-  assert (Hne : ds <> []).
-  { unfold ds. destruct es; [simpl in Hlen; lia | discriminate]. }
-  assert (Hn : lenN es = N.of_nat (length ds)) by (unfold ds, lenN; rewrite map_length; reflexivity).
-  pose proof (ahtree_inclusion_complete H H_len ds (idx + 1) (lenN es) _ Hne Hn ltac:(lia) Hd) as V.
-  unfold verify_inclusion in V.
-  destruct (_ || _); [discriminate|].
-  destruct (negb _) eqn:Sh; [discriminate|]. apply negb_false_iff in Sh. apply N.eqb_eq in Sh.
-  destruct (Z.ltb_spec (Z.of_N idx) 0); [lia|].
-  destruct (Z.leb_spec (Z.of_N (lenN es)) (Z.of_N idx)); [unfold lenN in *; lia|]. cbn [orb].
-  replace (Z.of_N (lenN es) - 1)%Z with (Z.of_N (lenN es - 1)) by (unfold lenN in *; lia).
-  rewrite htree_eval_N.
-  replace (idx + 1 - 1) with idx in * by lia.
-  rewrite Sh, Z.eqb_refl. cbn [andb]. exact V.
+  assert (Hd : nth_error ds (N.to_nat idx) = Some (entry_digest H v e)) by (unfold ds; apply map_nth_error; exact He).
+  pose proof (htree_inclusion_complete H H_len ds (N.to_nat idx) _ Hd) as V.
+  replace (Z.of_nat (N.to_nat idx)) with (Z.of_N idx) in V by lia.
+  replace (Z.of_nat (length ds)) with (Z.of_N (lenN es)) in V by (unfold ds, lenN; rewrite map_length; lia).
+  replace (N.of_nat (N.to_nat idx) + 1) with (idx + 1) in V by lia.
+  exact V.
 Qed.
 
 (* ---------- the client accepts every honest response ---------- *)
